@@ -38,9 +38,12 @@ def make(kind, depth, width, exact=False, case=None):
     with warnings.catch_warnings():
         warnings.simplefilter("ignore")
         m = Module()
-        rcd, wcd = ClockDomain("read"), ClockDomain("write")
+        # the domain names are parameters of the FIFOs: the defaults, or names of the caller's choosing
+        rn, wn = (case or {}).get("domains") or ["read", "write"]
+        rcd, wcd = ClockDomain(rn), ClockDomain(wn)
         m.domains += [rcd, wcd]
-        m.submodules.fifo = fifo = CLASSES[kind](width=width, depth=depth, exact_depth=exact)
+        kw = {} if (rn, wn) == ("read", "write") else {"r_domain": rn, "w_domain": wn}
+        m.submodules.fifo = fifo = CLASSES[kind](width=width, depth=depth, exact_depth=exact, **kw)
         if case is not None:
             elaborated_before(case, m, every=3)
         sim = Simulator(m)
@@ -185,7 +188,8 @@ def walk_cases(draw, nsteps):
         ev = {"mix": None, "wburst": "w", "rburst": "r", "both": "b"}[mode] or PICK(draw, ["w", "r", "b"])
         we = [0, draw(INT(0, 1)), 1][wmode]
         steps.append([ev, we, draw(INT(0, (1 << width) - 1)), draw(INT(0, 3)) != 0])
-    return {"kind": kind, "depth": depth, "width": width, "steps": steps}
+    return {"kind": kind, "depth": depth, "width": width, "steps": steps,
+            "domains": PICK(draw, [None, None, ["rd", "wr"], ["write", "read"], ["sync", "fast"]])}
 
 
 def longest_run(steps, ev):
@@ -246,6 +250,7 @@ def walk_body(ctx, case):
     simult = any(s[0] == "b" for s in steps)
     bursts = longest_run(steps, "w") >= 3 and longest_run(steps, "r") >= 3
     if simult: keys.append("walk:simultaneous-edges")
+    if case.get("domains"): keys.append(f"walk:{kind}-with-named-domains")
     if bursts: keys.append("walk:bursts")
     if st_["full"]: keys.append("walk:full")
     if st_["emptied"]: keys.append("walk:emptied")
@@ -304,7 +309,8 @@ def parts(tier):
 
 REQUIRED = ["graph:AsyncFIFO", "graph:AsyncFIFOBuffered", "graph:full", "graph:simultaneous-read-write",
             "walk:simultaneous-edges", "walk:bursts", "walk:full", "walk:emptied", "elab:elaborated",
-            "elab:rejected-by-constructor", "elab:actual-depth-1", "elab:actual-depth-2"]
+            "elab:rejected-by-constructor", "elab:actual-depth-1", "elab:actual-depth-2",
+            "walk:AsyncFIFO-with-named-domains", "walk:AsyncFIFOBuffered-with-named-domains"]
 
 
 def coverage_extra(tier, counters, extra):
